@@ -278,7 +278,9 @@ def classify(t, f):
     if 'method resolution' in e:
         return 'tc-of-tc-mro'
     if 'is not defined' in e:
-        return 'type-used-before-definition'
+        w = mibs.type_order_witness(t['texts'], e)
+        # the open finding covers the orders the MIB itself asks for; a generator that reorders well-ordered types is new
+        return 'type-used-before-definition' if w in ('declared-before-parent', 'plain-from-tc') else 'type-emitted-out-of-order;' + w
     if 'Jinja template' in e or ('not found in search path' in e and 'BITS' in json.dumps(t['texts']) and 'DEFVAL' in json.dumps(t['texts'])):
         return 'bits-defval-template'
     if 'No symbol' in e or f == 'ImportOnlyExported':
